@@ -165,3 +165,9 @@ Theorem C10_add_code_facts :
   interrupt_is_unbounded = true /\ ops_use_plain_interrupt = true /\ add_connects_after_interrupt = true.
 Proof. repeat split; reflexivity. Qed.
 Print Assumptions C10_add_code_facts.
+
+(** the connection is closed when the stage closes its stub, not when the locks the writer needs
+    afterwards are free (regenerated from ToxicLink.write) *)
+Theorem C10_close_is_not_held_back : writer_closes_before_deregistering = true.
+Proof. reflexivity. Qed.
+Print Assumptions C10_close_is_not_held_back.
